@@ -1,3 +1,104 @@
 (* Props/C13.v -- property theorems only *)
-From Coq Require Import ZArith.
-From Falcon Require Import Base.Res Flow.Constants.
+From Coq Require Import ZArith List Bool NArith.
+From Falcon Require Import Base.Res IL.Const IL.Expr IL.Func IL.Loc Exec.Sem Flow.Constants Flow.C13Check
+     Flow.SPOProofs Flow.ConstantsProofs.
+Import ListNotations.
+Local Open Scope Z_scope.
+
+(* 1. soundness of the reported constants, and 2. of Constants::eval, on the class of the known finding's
+      complement (def_assigned: every read is definitely assigned on every path from the entry), for
+      functions satisfying the CFG invariant (C15) with one width per name and well-sorted sources (c13_wf).
+      For EVERY execution of the reference semantics from the entry (any fuel, any initial state), before
+      every executed location: a scalar for which a constant is reported and which the function has
+      assigned earlier in that execution holds exactly that constant; an expression whose scalars the
+      function has all assigned and for which eval answers Some v has the value v.
+      `_partial`: relative to `exact_solution f m = true` -- each stored state is exactly the transfer of the
+      join of its predecessors' states -- which the engine guarantees only up to Constants::partial_cmp = Equal
+      (weaker: it ignores incomparable constants).  That hypothesis is an executable predicate evaluated by the
+      case files on every def_assigned case ([V]); deriving it from the run (monotonicity on def_assigned
+      functions) is open, see notes/C13.md. *)
+Theorem constants_sound_partial : forall f max m r,
+  cfg_inv (f_cfg f) = true -> c13_wf f = true -> def_assigned f = true ->
+  constants_states max f = Ok m -> exact_solution f m = true -> remap f m m = Ok r ->
+  forall l0 st0 fuel ti asg cm s c,
+    entry_loc f = Some l0 ->
+    In (ti, asg) (with_assigned [] (sem_run fuel f l0 st0)) ->
+    lm_get r (ti_loc ti) = Some cm ->
+    cm_get cm s = Some (CConst c) -> key_mem (skey_of s) asg = true ->
+    env_get (st_env (ti_before ti)) (skey_of s) = Some c.
+Proof.
+  intros f max m r H1 H2 H3 H4 H5 H6 l0 st0 fuel ti asg cm s c H7 H8 H9.
+  exact (proj1 (ConstantsProofs.constants_sound_partial f max m r H1 H2 H3 H4 H5 H6 l0 st0 fuel ti asg cm H7 H8 H9) s c).
+Qed.
+Print Assumptions constants_sound_partial.
+
+Theorem constants_eval_sound_partial : forall f max m r,
+  cfg_inv (f_cfg f) = true -> c13_wf f = true -> def_assigned f = true ->
+  constants_states max f = Ok m -> exact_solution f m = true -> remap f m m = Ok r ->
+  forall l0 st0 fuel ti asg cm e v,
+    entry_loc f = Some l0 ->
+    In (ti, asg) (with_assigned [] (sem_run fuel f l0 st0)) ->
+    lm_get r (ti_loc ti) = Some cm ->
+    wfb e = true -> cm_eval cm e = Ok (Some v) ->
+    (forall x, In x (scalars e) -> key_mem (skey_of x) asg = true) ->
+    den (st_env (ti_before ti)) e = Ok v.
+Proof.
+  intros f max m r H1 H2 H3 H4 H5 H6 l0 st0 fuel ti asg cm e v H7 H8 H9.
+  exact (proj2 (ConstantsProofs.constants_sound_partial f max m r H1 H2 H3 H4 H5 H6 l0 st0 fuel ti asg cm H7 H8 H9) e v).
+Qed.
+Print Assumptions constants_eval_sound_partial.
+
+(* the known finding kf:not-definitely-assigned:  if a == 0 { b = 5 } else { nop x4 }; c = b + 1; nop
+   scalars: a = 0, b = 1, c = 2 (32 bits) *)
+Definition sa : scalar := mks 0%N 32 None.
+Definition sb : scalar := mks 1%N 32 None.
+Definition sc : scalar := mks 2%N 32 None.
+Definition kf_cond : expr := EBin Cmpeq (EScalar sa) (EConst (mkc 32 0)).
+Definition kf_f : func :=
+  mkfunc 4096
+    (mkcfg [mkblock 0 1 [mkinstr 0 (ONop None) None] [];
+            mkblock 1 1 [mkinstr 0 (OAssign sb (EConst (mkc 32 5))) None] [];
+            mkblock 2 4 [mkinstr 0 (ONop None) None; mkinstr 1 (ONop None) None; mkinstr 2 (ONop None) None; mkinstr 3 (ONop None) None] [];
+            mkblock 3 2 [mkinstr 0 (OAssign sc (EBin Add (EScalar sb) (EConst (mkc 32 1)))) None; mkinstr 1 (ONop None) None] []]
+           [mkedge 0 1 (Some kf_cond); mkedge 0 2 (Some (EBin Cmpeq kf_cond (EConst (mkc 1 0))));
+            mkedge 1 3 None; mkedge 2 3 None]
+           4 (Some 0) (Some 3)) None.
+Definition kf_st0 : sstate :=
+  mkst [((0%N, None), mkc 32 1); ((1%N, None), mkc 32 9); ((2%N, None), mkc 32 0)] (mkbmem false []).
+
+(* outside def_assigned the soundness clause is refuted: the analysis completes, reports c = 6 before the
+   final nop, and the execution through the else arm -- in which the function has assigned c -- finds 10
+   (item_ok = clause (b) of the oracle in Flow/C13Check.v) *)
+Example constants_sound_refuted :
+  (cfg_inv (f_cfg kf_f) && c13_wf kf_f && negb (def_assigned kf_f) &&
+   match constants_max 3000 kf_f with
+   | Ok r => match lm_get r (LInstr 3 1) with
+             | Some cm => cmap_eqb cm [(sb, CConst (mkc 32 5)); (sc, CConst (mkc 32 6))]
+             | None => false
+             end && negb (forallb (item_ok r) (with_assigned [] (sem_run 32 kf_f (LInstr 0 0) kf_st0)))
+   | _ => false
+   end) = true.
+Proof. vm_compute. reflexivity. Qed.
+
+(* the hypotheses of the theorems are satisfiable: the same shape with b initialised first *)
+Definition ok_f : func :=
+  mkfunc 4096
+    (mkcfg [mkblock 0 2 [mkinstr 0 (OAssign sa (EConst (mkc 32 0))) None; mkinstr 1 (OAssign sb (EConst (mkc 32 7))) None] [];
+            mkblock 1 1 [mkinstr 0 (OAssign sb (EConst (mkc 32 5))) None] [];
+            mkblock 2 1 [mkinstr 0 (ONop None) None] [];
+            mkblock 3 2 [mkinstr 0 (OAssign sc (EBin Add (EScalar sb) (EConst (mkc 32 1)))) None; mkinstr 1 (ONop None) None] []]
+           [mkedge 0 1 (Some kf_cond); mkedge 0 2 (Some (EBin Cmpeq kf_cond (EConst (mkc 1 0))));
+            mkedge 1 3 None; mkedge 2 3 None]
+           4 (Some 0) (Some 3)) None.
+Example constants_hyps_satisfiable :
+  (cfg_inv (f_cfg ok_f) && c13_wf ok_f && def_assigned ok_f &&
+   match constants_states 3000 ok_f with
+   | Ok m => exact_solution ok_f m &&
+             match remap ok_f m m with
+             | Ok r => match lm_get r (LInstr 3 1) with
+                       | Some cm => cmap_eqb cm [(sa, CConst (mkc 32 0)); (sb, CTop); (sc, CTop)]
+                       | None => false end
+             | _ => false end
+   | _ => false
+   end) = true.
+Proof. vm_compute. reflexivity. Qed.
